@@ -1,5 +1,6 @@
 //! Harness binary for the diagnostics cluster (C19, C20, C21).
 mod c19;
+mod c20;
 mod common;
 mod gen_table;
 
@@ -16,6 +17,7 @@ fn main() {
             return;
         }
         "C19" => c19::run(&args, &mut report),
+        "C20" => c20::run(&args, &mut report),
         other => {
             eprintln!("vh-diag: unknown property {other}");
             std::process::exit(2);
